@@ -7,6 +7,9 @@
 package environment
 
 import (
+	"time"
+
+	"github.com/AliceO2Group/Control/common/event"
 	"github.com/AliceO2Group/Control/common/utils/uid"
 	"github.com/AliceO2Group/Control/core/task"
 	"github.com/AliceO2Group/Control/core/workflow"
@@ -70,3 +73,14 @@ func (envs *Manager) AddEnvironmentForVerif(env *Environment) {
 // SetCurrentRunNumberForVerif lets a scripted START_ACTIVITY body mimic the real one, which
 // resets currentRunNumber when the tasks fail to start.
 func (env *Environment) SetCurrentRunNumberForVerif(rn uint32) { env.currentRunNumber = rn }
+
+// NotifyEventBlockingForVerif delivers a device event to the hook collector with a blocking
+// send (NotifyEvent drops the event when the collector is not at its receive at that instant).
+func (env *Environment) NotifyEventBlockingForVerif(e event.DeviceEvent, timeout time.Duration) bool {
+	select {
+	case env.incomingEvents <- e:
+		return true
+	case <-time.After(timeout):
+		return false
+	}
+}
